@@ -40,6 +40,10 @@ def step(x):
     return 1.0 if x > 2 else 0.0
 
 
+def pos(y):
+    return y if y >= 0 else 0.0
+
+
 def loopinc(a):
     i = 0
     while i < 1:
@@ -97,7 +101,7 @@ def mad(x, p, y):
     return x * p + y
 
 
-ARITY = {"one": 0, "two": 0, "id": 1, "neg": 1, "dbl": 1, "inc": 1, "step": 1, "dsum": 1, "loopinc": 1, "dflt": 1,
+ARITY = {"one": 0, "two": 0, "id": 1, "neg": 1, "dbl": 1, "inc": 1, "step": 1, "pos": 1, "dsum": 1, "loopinc": 1, "dflt": 1,
          "add": 2, "sub": 2, "mul": 2, "sel": 2, "cut": 2, "cap": 2, "swp": 2, "mad": 3}
 FNS = {n: globals()[n] for n in ARITY}
 
